@@ -69,6 +69,7 @@ struct Plan {
     std::string expect_class;
     uint64_t expect_hash = 0;
     std::string story;      // human-readable trace, written as # comment lines
+    bool nosweep = false;   // this plan is itself a fault-position variant: do not derive variants from it
 
     bool write(const std::string &path) const;
     bool read(const std::string &path);
